@@ -111,6 +111,10 @@ pub fn round_moves(round: usize, thorough: bool, pairs: bool, static_mode: bool,
             }
         }
     }
+    if static_mode {
+        // after enhance_hot_reloading, hot_reload is documented to have no effect: it must still return
+        out.push(Move { name: "static-hot_reload".into(), ops: vec![format!("put l0.l {}7", round + 1), "ev F:l0.l".into(), "hr".into(), "hr".into()] });
+    }
     if c06_extras {
         // an edit that is never notified; unrelated/unknown notifications only; two passes in a row
         out.push(Move { name: "silent-edit".into(), ops: vec![format!("put l0.l {}9", round + 1), "hr".into()] });
